@@ -150,8 +150,9 @@ type (
 		newVal  *Validator
 	}
 	validatorDeleteChange struct {
-		address *common.Address
-		oldVal  *Validator
+		address     *common.Address
+		oldVal      *Validator
+		prevDeleted bool // the deleted flag of oldVal before RemoveValidator set it
 	}
 	validatorAddUBDChange struct {
 		address *common.Address
@@ -175,7 +176,10 @@ func (ch validatorCreateChange) dirtied() *common.Address {
 }
 
 func (ch validatorDeleteChange) revert(s *StateDB) {
+	// RemoveValidator flagged the very object it journalled and took it out of the statistics
+	ch.oldVal.deleted = ch.prevDeleted
 	s.setValidator(ch.oldVal)
+	s.incrValidatorsStat(ch.oldVal)
 }
 
 func (ch validatorDeleteChange) dirtied() *common.Address {
